@@ -4,6 +4,7 @@ One integer (VERIF_SEED) fixes every run: run i of profile P executes the
 Case generated from derive(VERIF_SEED, P, i)."""
 
 import faulthandler
+import json
 import multiprocessing
 import os
 import sys
@@ -28,6 +29,7 @@ def _worker(args):
     from dst import profiles
     prof = profiles.get(profile_name)
     agg = new_agg()
+    known = set(tuple(k) for k in (opts or {}).get('known', []))
     t_start = time.time()
     for i in range(start, start + count):
         if time.time() > deadline:
@@ -35,7 +37,9 @@ def _worker(args):
             break
         try:
             seed = derive(base_seed, profile_name, i)
-            case = prof.gen_case(seed)
+            # through JSON: the case evaluated here is exactly what a replay
+            # file would contain
+            case = json.loads(json.dumps(prof.gen_case(seed)))
             res = prof.evaluate(case, prop=prop)
         except HarnessError as e:
             agg['harness_errors'].append((i, 'HarnessError: %s' % e))
@@ -43,7 +47,7 @@ def _worker(args):
         except Exception:
             agg['harness_errors'].append((i, traceback.format_exc(limit=8)))
             continue
-        fold(agg, prop, i, seed, case, res)
+        fold(agg, prop, i, seed, case, res, known)
     agg['worker_s'] = time.time() - t_start
     faulthandler.cancel_dump_traceback_later()
     return agg
@@ -58,7 +62,7 @@ def new_agg():
             'digests': {}}
 
 
-def fold(agg, prop, i, seed, case, res):
+def fold(agg, prop, i, seed, case, res, known=()):
     agg['evaluations'] += 1
     agg['executions'] += res.get('executions', 1)
     agg['sim_seconds'] += res.get('sim_seconds', 0.0)
@@ -76,6 +80,11 @@ def fold(agg, prop, i, seed, case, res):
     for v in res.get('violations', []):
         if v['prop'] == prop and not mine:
             mine = True
+            if (v['prop'], v['rule'], v['disc']) in known:
+                # a listed known finding: counted, not an alarm; the run's
+                # checking ended at this event
+                agg['known_hits'][v['rule']] = agg['known_hits'].get(v['rule'], 0) + 1
+                continue
             if len(agg['violations']) < 40:
                 agg['violations'].append({'run': i, 'seed': seed, 'case': case, 'v': v})
         elif v['prop'] != prop:
